@@ -24,6 +24,19 @@ func (ex *Exec) callMethod(recv *IfaceVal, name string, args ...Value) Value {
 	return nil
 }
 
+func (ex *Exec) hasMethod(t types.Type, name string) bool {
+	if t == nil {
+		return false
+	}
+	ms := ex.w.prog.MethodSets.MethodSet(t)
+	for i := 0; i < ms.Len(); i++ {
+		if ms.At(i).Obj().Name() == name {
+			return true
+		}
+	}
+	return false
+}
+
 func (ex *Exec) ioSentinel(pkg, name string) Value {
 	p := ex.w.prog.ImportedPackage(pkg)
 	if p == nil {
@@ -69,6 +82,9 @@ func registerIOModels() {
 	intercepts["(*bytes.Buffer).Bytes"] = func(ex *Exec, fn *ssa.Function, a []Value) Value {
 		c := a[0].(*Ptr).C
 		s := c.Kids[0].V.(*SliceVal)
+		if s.Blob != nil {
+			return s
+		}
 		off := ex.concInt(c.Kids[1].V, s.Len)
 		if s.Arr == nil {
 			return &SliceVal{}
@@ -99,6 +115,18 @@ func registerIOModels() {
 			n := res.E[0].(*Term)
 			rc.Kids[1].V = mkBin("bvadd", mkConst(64, uint64(i)), n)
 			return &Agg{E: []Value{n, res.E[1]}}
+		}
+		if typeStr(dst.Typ) == "*bytes.Buffer" && ex.hasMethod(src.Typ, "vRemaining") {
+			// summarised read of a reader of symbolic size: everything that remains goes into the buffer
+			bc := dst.Val.(*Ptr).C
+			if cur := bc.Kids[0].V.(*SliceVal); cur.Len != 0 || cur.Blob != nil {
+				ex.fatal("io.Copy summary needs an empty buffer")
+			}
+			rem := ex.callMethod(src, "vRemaining").(*Term)
+			ex.callMethod(src, "vSkip", rem)
+			ex.blobSeq++
+			bc.Kids[0].V = &SliceVal{Blob: &Blob{ID: ex.blobSeq, Len: rem, Kind: "filedata"}}
+			return &Agg{E: []Value{rem, nilErr()}}
 		}
 		if typeStr(dst.Typ) == "*bytes.Buffer" {
 			bc := dst.Val.(*Ptr).C
